@@ -44,14 +44,15 @@ type ReqOp struct {
 }
 
 type Case struct {
-	API     string // middleware | store
-	Source  string // cookie | header | query
-	Storage string // vk | memory
-	Idle    int    // seconds
-	Abs     bool   // AbsoluteTimeout 1h configured
-	Conn    bool   `json:",omitempty"` // all requests arrive on one keep-alive connection (one server-side RequestCtx)
-	Inner   bool   `json:",omitempty"` // store API only: used in a middleware in front of an unrelated session middleware
-	Ops     []ReqOp
+	API      string // middleware | store
+	Source   string // cookie | header | query
+	Storage  string // vk | memory
+	Idle     int    // seconds
+	Abs      bool   // AbsoluteTimeout 1h configured
+	Conn     bool   `json:",omitempty"` // all requests arrive on one keep-alive connection (one server-side RequestCtx)
+	ViaField bool   `json:",omitempty"` // middleware API: Destroy is called on the exported Session field instead of on the middleware object
+	Inner    bool   `json:",omitempty"` // store API only: used in a middleware in front of an unrelated session middleware
+	Ops      []ReqOp
 }
 
 type rec struct {
@@ -144,7 +145,13 @@ func check(c Case) vk.Verdict {
 			runScript(m.Session)
 			for _, s := range script {
 				if s.Op == "destroy" {
-					if err := m.Destroy(); err != nil {
+					var err error
+					if c.ViaField {
+						err = m.Session.Destroy() // the session object the middleware exports, destroyed by its own method
+					} else {
+						err = m.Destroy()
+					}
+					if err != nil {
 						handlerErr = err.Error()
 					}
 					destroyed = true
@@ -495,6 +502,7 @@ func genCase(t *rapid.T) Case {
 	c := Case{API: rapid.SampledFrom([]string{"middleware", "store"}).Draw(t, "api"), Source: rapid.SampledFrom([]string{"cookie", "header", "query"}).Draw(t, "source"),
 		Storage: rapid.SampledFrom([]string{"vk", "vk-retain", "memory"}).Draw(t, "storage"), Idle: rapid.SampledFrom([]int{2, 5, 60}).Draw(t, "idle"), Abs: rapid.IntRange(0, 3).Draw(t, "abs") == 0, Conn: rapid.IntRange(0, 2).Draw(t, "conn") == 0}
 	c.Inner = c.API == "store" && rapid.IntRange(0, 2).Draw(t, "inner") == 0
+	c.ViaField = c.API == "middleware" && rapid.IntRange(0, 2).Draw(t, "viafield") == 0
 	n := rapid.IntRange(1, 25).Draw(t, "nops")
 	for i := 0; i < n; i++ {
 		switch k := rapid.IntRange(0, 11).Draw(t, "kind"); {
